@@ -215,7 +215,8 @@ func (e *SpecEnv) equal(a, b *SVal) string {
 				return "false"
 			}
 			return sEq(a.Term, "0")
-		case KMap, KIface, KFunc, KChan:
+		case KMap, KIface, KFunc, KChan, KSpecInt:
+			// (KSpecInt: an arbitrary stand-in value inside a `check` clause)
 			return sEq(a.Term, "0")
 		}
 		sfail("comparison of %s with nil", a.T)
@@ -752,6 +753,25 @@ func (e *SpecEnv) callExpr(n *Node) *SVal {
 		s2 := e.sum([]*Node{args[0], args[1], args[2], args[4]})
 		pw := e.quant("forall", []*Node{args[0], args[1], args[2], {Op: "==", Args: []*Node{args[3], args[4]}}})
 		return boolVal(sImp(pw.Term, sEq(s1.Term, s2.Term)))
+	case "mkstruct":
+		// mkstruct(T, f1, f2, ...): a value of struct type T from its field values, in order
+		if len(args) < 1 {
+			sfail("mkstruct(T, fields...)")
+		}
+		t := e.resolveType(args[0])
+		st, ok := t.Underlying().(*types.Struct)
+		if !ok || st.NumFields() != len(args)-1 {
+			sfail("mkstruct: %s is not a struct with %d fields", args[0], len(args)-1)
+		}
+		sv := &SVal{T: t}
+		for i2 := 0; i2 < st.NumFields(); i2++ {
+			fv := e.force(e.eval(args[i2+1]))
+			if fv.T == specIntType {
+				fv = leaf(st.Field(i2).Type(), fv.Term)
+			}
+			sv.F = append(sv.F, fv)
+		}
+		return sv
 	case "resultof":
 		// resultof(Name, i): i-th result of the latest call to Name (or Type.Name) that
 		// dominates the current point of this function
@@ -1099,7 +1119,9 @@ func (e *SpecEnv) quant(kind string, args []*Node) *SVal {
 	// Ground instances at the indices of the enclosing loops. (forall k. P) is equivalent to
 	// (forall k. P) && P[t], and (exists k. P) to (exists k. P) || P[t], so this is sound in
 	// either polarity; it spares the solver an E-matching step through offset arithmetic.
-	if len(args) == 4 && e.sumCtx == nil {
+	// (only for a single, un-nested quantifier: inside nested quantifiers the extra conjuncts
+	// were observed to make the solvers give up)
+	if len(args) == 4 && e.sumCtx == nil && os.Getenv("GOVC_NOINST") == "" && (kind == "exists" || (!strings.Contains(b, "(forall ") && !strings.Contains(b, "(exists ") && !hasOuterQuant(e))) {
 		var insts []string
 		for _, t := range e.fr.loopIndexTerms() {
 			if hasBound(t) {
